@@ -210,6 +210,31 @@ static void op_eval(struct arg *a, int n, FILE *out) {
 	unlink(fpath);
 }
 
+/* ast <conf> <home>: every block of the configuration as the real parser built it */
+static void op_ast(struct arg *a, int n, FILE *out) {
+	struct config_list cl;
+	struct environment env;
+	char confpath[PATH_MAX];
+	size_t i;
+	(void)n;
+	snprintf(confpath, sizeof(confpath), "%s/conf", tdir);
+	writefile(confpath, &a[0]);
+	memset(&env, 0, sizeof(env));
+	strlcpy(env.ev_home, (const char *)a[1].p, sizeof(env.ev_home));
+	strlcpy(env.ev_tmpdir, tdir, sizeof(env.ev_tmpdir));
+	env.ev_confpath = confpath;
+	config_init(&cl);
+	if (config_parse(&cl, confpath, &env)) { fputs("CONFERR", out); return; }
+	fputs("BLOCKS", out);
+	for (i = 0; i < VECTOR_LENGTH(cl.cl_list); i++) {
+		const struct string *s;
+		fprintf(out, " B %zu", strings_len(cl.cl_list[i].paths));
+		TAILQ_FOREACH(s, cl.cl_list[i].paths, entry) { fputc(' ', out); hexs(out, s->val); }
+		dump_expr(out, cl.cl_list[i].expr);
+		fputs(" ;", out);
+	}
+}
+
 /* small pure functions: time.c, flags, paths */
 static void op_small(const char *op, struct arg *a, int n, FILE *out) {
 	if (strcmp(op, "tzoff") == 0 && n == 1) {
@@ -276,6 +301,7 @@ static void op_small(const char *op, struct arg *a, int n, FILE *out) {
 
 static void handle(const char *op, struct arg *a, int n, FILE *out) {
 	if (strcmp(op, "eval") == 0 && n >= 6) op_eval(a, n, out);
+	else if (strcmp(op, "ast") == 0 && n == 2) op_ast(a, n, out);
 	else if (strcmp(op, "eval") != 0) op_small(op, a, n, out);
 	else fputs("BADOP", out);
 }
